@@ -18,3 +18,128 @@ impl RegionTracker {
         &self.order_trackers
     }
 }
+
+// ---- C14: one step of the region tracker ----------------------------------------------------------
+// The tracker is a vector of bitmaps, one per order, bit r of tracker[o] = "region r is known to
+// have no free block of order >= o".  Decided here, on raw words and for every tracker state:
+// mark_free(o, r) clears exactly the bits (k, r) for k <= o; mark_full(o, r) sets exactly the
+// bits (k, r) for k >= o; find_free(o) returns the lowest region whose bit is clear at order o,
+// or None when every region is marked.  Composition with the allocator steps (DESIGN.md C14):
+//  * free path: `m = free(x, o)` changes no bitmap above m (c14_free_*), so "has a free block of
+//    order >= k" is unchanged for k > m, and mark_free(m, r) clears every k <= m: invariant T kept;
+//  * allocation path: alloc(o) == None only when the region has no aligned free run of order o
+//    (c14_alloc_*), hence - by R - no free block of any order >= o, which is exactly what
+//    mark_full(o, r) records: invariant T kept.  That allocate_helper_retry calls mark_full with
+//    exactly (required order, refused region) is c14_retry_glue_* (page_manager.rs).
+
+use crate::tree_store::page_store::bitmap::verif_kani as bmh;
+
+const TR: u32 = 70; // regions tracked (two leaf words)
+const TCAP: u32 = MAX_REGIONS; // the real padding capacity (4-level bitmaps)
+
+fn tracker_bit(t: &RegionTracker, o: usize, r: u32) -> bool {
+    let b = &t.order_trackers[o];
+    b.verif_word(b.verif_height() - 1, (r / 64) as usize) & (1u64 << (r % 64)) != 0
+}
+
+fn leafw(t: &RegionTracker, o: usize, w: usize) -> u64 {
+    let b = &t.order_trackers[o];
+    b.verif_word(b.verif_height() - 1, w)
+}
+
+// @harness props=C14 tier=quick timeout=1800 mem=16 replay=native
+// @desc one step of RegionTracker::{mark_free,mark_full,find_free} from ANY tracker state (3 orders x 70 regions, real 4-level padded bitmaps): mark_free(o,r) clears exactly bit r of the trackers of orders <= o, mark_full(o,r) sets exactly bit r of the trackers of orders >= o, every other bit is unchanged and the bitmaps' summary levels stay consistent; find_free(o) returns the lowest region not marked full at order o and None only when all are marked
+// @functions RegionTracker::{mark_free,mark_full,find_free}, BtreeBitmap::{set,clear,find_first_unset,update_to_root}
+// @bound 3 tracked orders (the real tracker has 21), 70 regions, padding capacity MAX_REGIONS; all tracker words, the operation, order and region arbitrary
+#[kani::proof]
+#[kani::unwind(66)]
+fn c14_region_tracker_step() {
+    let w: [[u64; 2]; 3] = [[kani::any(), kani::any()], [kani::any(), kani::any()], [kani::any(), kani::any()]];
+    let mut t = RegionTracker::verif_raw(alloc::vec![
+        bmh::mk_padded(TR, TCAP, &[w[0][0], w[0][1], u64::MAX]),
+        bmh::mk_padded(TR, TCAP, &[w[1][0], w[1][1], u64::MAX]),
+        bmh::mk_padded(TR, TCAP, &[w[2][0], w[2][1], u64::MAX]),
+    ]);
+    let before = [
+        [leafw(&t, 0, 0), leafw(&t, 0, 1)],
+        [leafw(&t, 1, 0), leafw(&t, 1, 1)],
+        [leafw(&t, 2, 0), leafw(&t, 2, 1)],
+    ];
+    let op: u8 = kani::any();
+    let o: u8 = kani::any();
+    kani::assume(o <= 2);
+    let r: u32 = kani::any();
+    kani::assume(r < TR);
+    let rw = (r / 64) as usize;
+    let rm = 1u64 << (r % 64);
+    match op {
+        0 => {
+            match o {
+                0 => t.mark_free(0, r),
+                1 => t.mark_free(1, r),
+                _ => t.mark_free(2, r),
+            }
+            let mut k = 0usize;
+            while k < 3 {
+                let mut ww = 0usize;
+                while ww < 2 {
+                    let want = if k <= o as usize && ww == rw { before[k][ww] & !rm } else { before[k][ww] };
+                    assert!(leafw(&t, k, ww) == want, "mark_free clears exactly (k <= o, r)");
+                    ww += 1;
+                }
+                k += 1;
+            }
+            kani::cover!(o == 1 && before[2][rw] & rm != 0, "higher order stays marked full");
+        }
+        1 => {
+            match o {
+                0 => t.mark_full(0, r),
+                1 => t.mark_full(1, r),
+                _ => t.mark_full(2, r),
+            }
+            let mut k = 0usize;
+            while k < 3 {
+                let mut ww = 0usize;
+                while ww < 2 {
+                    let want = if k >= o as usize && ww == rw { before[k][ww] | rm } else { before[k][ww] };
+                    assert!(leafw(&t, k, ww) == want, "mark_full sets exactly (k >= o, r)");
+                    ww += 1;
+                }
+                k += 1;
+            }
+            kani::cover!(o == 1 && before[0][rw] & rm == 0, "lower order stays available");
+        }
+        _ => {
+            let f = match o {
+                0 => t.find_free(0),
+                1 => t.find_free(1),
+                _ => t.find_free(2),
+            };
+            let b0 = before[o as usize][0];
+            let b1 = before[o as usize][1];
+            match f {
+                Some(x) => {
+                    assert!(x < TR, "a tracked region");
+                    assert!(!tracker_bit(&t, o as usize, x), "not marked full at this order");
+                    if x >= 64 {
+                        assert!(b0 == u64::MAX);
+                        assert!(b1 & ((1u64 << (x - 64)) - 1) == (1u64 << (x - 64)) - 1, "lowest such region");
+                    } else {
+                        assert!(b0 & ((1u64 << x) - 1) == (1u64 << x) - 1, "lowest such region");
+                    }
+                    kani::cover!(x >= 64, "found in the second word");
+                }
+                None => {
+                    assert!(b0 == u64::MAX && b1 == u64::MAX, "None only when every region is marked full");
+                    kani::cover!(true, "all regions full");
+                }
+            }
+        }
+    }
+    let mut k = 0usize;
+    while k < 3 {
+        assert!(bmh::summary_ok(&t.order_trackers[k], TR, TCAP), "summary levels consistent");
+        k += 1;
+    }
+    core::mem::forget(t);
+}
